@@ -293,6 +293,9 @@ def judge_two_files(tf):
         names = vals[0][lib]
         if any(other + "." in n for n in names) or not all((lib + ".") in n for n in names if "Top_" not in n):
             return f"modules defined in {lib}/amps.py are exported as {names}"
+    gv = vals[0].get("generator_valued", {})
+    if not gv.get("distinct_modules") or gv.get("liba") == gv.get("libb"):
+        return f"a generator given liba's and libb's same-named generator as its parameter value: {gv}"
     if set(vals[0]["liba"]) & set(vals[0]["libb"]):
         return f"two different generated modules share an export name: {sorted(set(vals[0]['liba']) & set(vals[0]['libb']))}"
     return None
